@@ -1,5 +1,6 @@
 import PEval.Driver.Util
 import PEval.Model.AP
+import PEval.Model.APExt
 /-! Driver handler for C04 (AP / APH / mAP / mAPH). The decoders are reused by the C08 handler. -/
 open Lean
 
@@ -56,33 +57,84 @@ def jMapOut (o : MapOut) : Json :=
 def asFrame (j : Json) : Except String (List Res × List Label) := do
   pure ((← getResList j "results"), (← getNatList j "gts"))
 
+/-- a threshold: a rational, or the string "inf" for `float("inf")` -/
+def asEThr (j : Json) : Except String EThr :=
+  match j with
+  | .str "inf" => pure .posInf
+  | _ => (asRat j).map .fin
+
+def getEThrList (j : Json) (k : String) : Except String (List EThr) := do
+  (← getArr j k).toList.mapM asEThr
+
+/-- all thresholds finite: the list of numbers (then the functions of `Model/AP.lean` are run) -/
+def allFin : List EThr → Option (List Rat)
+  | [] => some []
+  | .fin t :: rest => (allFin rest).map (t :: ·)
+  | .posInf :: _ => none
+
+def asResNested (j : Json) : Except String (List (List Res)) := do
+  match j with
+  | .arr frs => frs.toList.mapM (fun fr => do
+      match fr with
+      | .arr a => a.toList.mapM asRes
+      | _ => throw "results must be a list of lists")
+  | _ => throw "results must be a list of lists"
+
+/-- one dict entry `[label, value]` -/
+def asEntry {α} (f : Json → Except String α) (j : Json) : Except String (Label × α) := do
+  match j with
+  | .arr #[k, v] => pure ((← k.getNat?), (← f v))
+  | _ => throw "dict entry must be [key, value]"
+
 def handle : Json → Except String Json := fun j => do
   let op ← getStr j "op"
   match op with
   | "ap" =>
     let m ← getMode j
     let targets ← getNatList j "targets"
-    let thrs ← getRatList j "thrs"
+    let ethrs ← getEThrList j "thrs"
     let G ← getNat j "G"
-    let nested ← (← getArr j "results").toList.mapM (fun fr => do
-      match fr with
-      | .arr a => a.toList.mapM asRes
-      | _ => throw "results must be a list of lists")
-    pure (Json.mkObj [("ap", jExcept jApOut (apOfNested .ap m targets thrs G nested)),
-                      ("aph", jExcept jApOut (apOfNested .aph m targets thrs G nested))])
+    let nested ← asResNested (← j.getObjVal? "results")
+    match allFin ethrs with
+    | some thrs =>
+      pure (Json.mkObj [("ap", jExcept jApOut (apOfNested .ap m targets thrs G nested)),
+                        ("aph", jExcept jApOut (apOfNested .aph m targets thrs G nested))])
+    | none =>
+      pure (Json.mkObj [("ap", jExcept jApOut (apOfNestedE .ap m targets ethrs G nested)),
+                        ("aph", jExcept jApOut (apOfNestedE .aph m targets ethrs G nested))])
   | "map" =>
     let m ← getMode j
     let is2d ← getBool j "is2d"
     let targets ← getNatList j "targets"
-    let thrs ← getRatList j "thrs"
+    let ethrs ← getEThrList j "thrs"
     let scene ← getBool j "scene"
     let frames ← (← getArr j "frames").toList.mapM asFrame
+    -- frame level: the label list of the critical-object filter that keys the dicts (default: the targets)
+    let crit ← match j.getObjVal? "crit" with
+      | .ok (.arr a) => a.toList.mapM (fun x => x.getNat?)
+      | _ => pure targets
     if scene then
-      pure (jExcept jMapOut (sceneMap m is2d targets thrs frames))
+      match allFin ethrs with
+      | some thrs => pure (jExcept jMapOut (sceneMap m is2d targets thrs frames))
+      | none => pure (jExcept jMapOut (sceneMapE m is2d targets ethrs frames))
     else
       match frames with
-      | [fr] => pure (jExcept jMapOut (frameMap m is2d targets thrs fr.1 fr.2))
+      | [fr] =>
+        match allFin ethrs, decide (crit = targets) with
+        | some thrs, true => pure (jExcept jMapOut (frameMap m is2d targets thrs fr.1 fr.2))
+        | _, _ => pure (jExcept jMapOut (frameMapE m is2d crit targets ethrs fr.1 fr.2))
       | _ => throw "frame-level map needs exactly one frame"
+  | "mapdict" =>
+    -- `Map` on explicitly given dicts: [[label, [[result, ...], ...]], ...] and [[label, count], ...] in insertion order
+    let m ← getMode j
+    let is2d ← getBool j "is2d"
+    let targets ← getNatList j "targets"
+    let ethrs ← getEThrList j "thrs"
+    let buckets ← (← getArr j "buckets").toList.mapM (asEntry asResNested)
+    let nums ← (← getArr j "nums").toList.mapM (asEntry (fun x => x.getNat?))
+    match allFin ethrs with
+    | some thrs => pure (jExcept jMapOut (mapOf m is2d targets thrs buckets nums))
+    | none => pure (jExcept jMapOut (mapOfE m is2d targets ethrs buckets nums))
   | "weights" =>
     -- AP of an abstract ranking given directly by its kinds: "t:<w>" | "f" | "i"
     let G ← getNat j "G"
